@@ -2164,7 +2164,8 @@ def run(ctx) -> None:
     oracle_options(ctx, os.path.join(ctx.scratch, "to"))
     oracle_mid_call(ctx, os.path.join(ctx.scratch, "tm"), [[2, 2], [3]])
     for i, (shape, variant) in enumerate([([[2, 1], [2], [1]], None)]
-                                         + ([(history_shapes(ctx)[0], None), ([[2, 1], [2], [1]], "json"), ([[2], [1], [1]], "no-pointer")]
+                                         + ([(history_shapes(ctx)[0], None), ([[2, 1], [2], [1]], "json"), ([[2], [1], [1]], "no-pointer"),
+                                             ([[2, 1], [2], [1]], "dup"), ([[2, 1], [2], [1]], "nosum")]
                                             if ctx.tier == "thorough" else [])):
         oracle_reread(ctx, os.path.join(ctx.scratch, f"tr{i}"), shape, variant, f"read-again:{variant or ('history' if i else 'standard')}")
     for i, (variant, sess) in enumerate([(None, False), ("no-pointer", False), (None, True)]
